@@ -131,6 +131,7 @@ Definition add_plugin (m : md) (c : N) : md :=
   else if c =? 54 (* 6 *) then block_add_rule m R_CUSTOM_A r_before_all
   else if c =? 55 (* 7 *) then block_add_rule m R_CUSTOM_B r_before_all
   else if c =? 56 (* 8 *) then add_inline m I_CUSTOM_PAIR
+  else if c =? 122 (* z: emph_pair::add_with::<'~', 1, true>, a one-tilde pair on top of strikethrough's marker *) then emph_add_with m 126 1 I_STRIKE (KEm 126)
   else if c =? 103 (* g *) then block_add_rule m R_CUSTOM_A (r_alias R_CUSTOM_GROUP)
   else if c =? 71 (* G *) then block_add_rule m R_CUSTOM_B (r_alias R_CUSTOM_GROUP)
   else m.
